@@ -16,7 +16,7 @@ from vf.common import MachineryError
 PROP = "C16"
 SEL = {"none": None, "n_gt_2": "r.n > 2", "other_y": "r.other == 'y'", "s_b": "r.s == 'b'", "n_ge_other": "r.n >= 2 and r.other == 'y'",
        "other_ge_x": "r.other >= 'x'", "not_other_y": "not (r.other == 'y')"}
-R = {1: [(1, "A"), (2, "B"), (3, "A")], 2: [(4, "B"), (5, "A"), (6, "B")], 3: [(7, "A")]}
+R = {1: [(1, "A"), (2, "B"), (3, "A")], 2: [(4, "B"), (5, "A"), (6, "B")], 3: [(7, "A"), (8, "A2")]}
 
 
 def descs():
@@ -24,10 +24,13 @@ def descs():
 
     A = RecordDescriptor("t/a", [("string", "s"), ("varint", "n"), ("datetime", "t1"), ("datetime", "t2")])
     B = RecordDescriptor("t/b", [("varint", "n"), ("string", "other")])
-    return A, B
+    A2 = RecordDescriptor("t/a", [("varint", "n"), ("string", "s"), ("string", "extra")])  # same name as A, other fields
+    return A, B, A2
 
 
-def mkrec(A, B, i, d):
+def mkrec(A, B, i, d, A2=None):
+    if d == "A2":
+        return A2(i, "a" if i % 2 == 1 else "b", "e", _source="orig", _generated=gen.GEN)
     if d == "A":
         return A("a" if i % 2 == 1 else "b", i, dt.datetime(2020, 1, i, tzinfo=dt.timezone.utc), dt.datetime(2021, 2, i, tzinfo=dt.timezone.utc), _source="orig", _generated=gen.GEN)
     return B(i, "y" if i % 3 == 0 else "x", _source="orig", _generated=gen.GEN)
@@ -53,8 +56,8 @@ def universe(rnd, n):
 
 
 class Files:
-    def __init__(self, tmp, A, B):
-        self.tmp, self.A, self.B, self.cache = tmp, A, B, {}
+    def __init__(self, tmp, A, B, A2):
+        self.tmp, self.A, self.B, self.A2, self.cache = tmp, A, B, A2, {}
 
     def path(self, src, idx):
         from flow.record import RecordWriter
@@ -70,7 +73,7 @@ class Files:
         elif src["kind"] != "missing":
             with RecordWriter(p) as w:
                 for r in src["recs"]:
-                    w.write(mkrec(self.A, self.B, r["id"], r["d"]))
+                    w.write(mkrec(self.A, self.B, r["id"], r["d"], self.A2))
             if src["kind"] == "trunc":
                 data = open(p, "rb").read()
                 fr, dec = rc.frames(data), rc.decode_stream(data)
@@ -96,13 +99,20 @@ def parse_stream_file(path):
             desc = descs[ident]
             names = [n for t, n in desc[2]]
             vals = dict(zip(names + ["_source", "_classification", "_generated", "_version"], d[2]))
-            out.append({"id": vals.get("n", 0) or 0, "d": "A" if desc[1] == "t/a" else "B", "fields": names, "src": vals["_source"] if vals["_source"] is not None else "none",
+            out.append({"id": vals.get("n", 0) or 0, "d": "B" if desc[1] == "t/b" else "A", "fields": names, "src": vals["_source"] if vals["_source"] is not None else "none",
                         "cls": vals["_classification"] if vals["_classification"] is not None else "none", "tsd": vals.get("ts_description", "none") or "none",
                         "_ts": vals.get("ts"), "_vals": vals})
     return out
 
 
 def check_values(rec):
+    try:
+        return _check_values(rec)
+    except Exception:
+        return False  # a value of an unexpected shape is a changed value
+
+
+def _check_values(rec):
     """values other than the overridden metadata must be unchanged; ts must equal the field named by ts_description"""
     v = rec["_vals"]
     i = v.get("n")
@@ -217,9 +227,9 @@ def run(tier):
     thorough = tier == "thorough"
     ctx.design("MC_Rdump", "MC_Rdump_small.cfg" if not thorough else "MC_Rdump.cfg",
                "pipeline lemmas (identity, count bound, isolation of bad sources, slice-after-filter, projection keeps records, split) over layouts x options", timeout=3000)
-    A, B = descs()
+    A, B, A2 = descs()
     tmp = common.scratch("c16")
-    files = Files(tmp, A, B)
+    files = Files(tmp, A, B, A2)
     uni = universe(ctx.rnd, 700 if not thorough else 12000)
     # always include the plain identity run and the documented corner cases
     plain = {"skip": 0, "cnt": 0, "sel": "none", "fields": [], "excl": [], "override": False, "mts": False, "split": 0}
